@@ -104,6 +104,9 @@ JOBS = [
     Job('Math.AngRound.float', 'Math::AngRound', ['C16'], real='float', cname='Math_AngRound', contract_name='Math_AngRound',
         defines=['VERIF_ANGROUND_GAP=3.7252903e-09f', 'VERIF_ANGROUND_T=float'], description='small-angle rounding (float)'),
     Job('Math.sincosd', 'Math::sincosd', ['C16', 'C13', 'C14'], replay_ghost=[REMQUO_GHOST], timeout=600, description='sine and cosine in degrees: quadrant logic, exact special values, signed zeros'),
+    Job('Math.sincosde', 'Math::sincosde', ['C16', 'C13', 'C14'], timeout=900, inline=['Math::AngRound'], replay_ghost=[REMQUO_GHOST],
+        description='sine and cosine in degrees with an error term: NaN, range, signed zeros; quadrant logic and exact values for a zero error term'),
+    Job('Math.tand', 'Math::tand', ['C16', 'C13', 'C14'], timeout=600, replace=['Math::sincosd'], description='tangent in degrees: clamped poles, NaN preserved, signed zeros'),
     Job('Math.sind', 'Math::sind', ['C16', 'C13', 'C14'], replay_ghost=[REMQUO_GHOST], timeout=300, description='sine in degrees'),
     Job('Math.cosd', 'Math::cosd', ['C16', 'C13', 'C14'], replay_ghost=[REMQUO_GHOST], timeout=300, description='cosine in degrees'),
     Job('Math.AngDiff', 'Math::AngDiff', ['C16', 'C13', 'C14'], arity=3, select=r'T& ?e', replace=['Math::sum'], timeout=300,
@@ -117,6 +120,13 @@ JOBS = [
         # natively, "accepted as a DMS string" is observable from outside: no exception and not one of nummatch's special names
         replay_ghost=['cap_main = !verif_thrown && Utility::nummatch<double>(dmsa_str) == 0;'],
         replace=[LOOKUP, 'Utility::nummatch'], description='DMS component parser (strings up to 12 characters, full unwinding: bounded)'),
+    Job('DMS.Decode', 'DMS::Decode', ['C10', 'C13', 'C14'], select=r'flag& ind', cname='DMS_Decode_body', contract_name='DMS_Decode_body', unwind=14, strcap=13, timeout=900,
+        replace=[LOOKUP], extra_replace=['DMS_InternalDecode_piece'],
+        rewrites=[(r'replace\(dmsa,[^;]*;', ''), (r'string dmsa = dms;', ''), (r'\bdmsa\b', 'dms'), (r'string::size_type', 'size_t'),
+                  (r'dms\.find_first_of\(signs_, pa\)', 'verif_find_first_of_signs(dms, pa)'),
+                  (r'pb = min\(verif_find_first_of_signs\(dms, pa\), end\);', 'pb = verif_find_first_of_signs(dms, pa); if (!(pb < end)) pb = end;'),
+                  (r'v \+= InternalDecode\(dms\.substr\(p, pb - p\), ind2\);', 'v += DMS_InternalDecode_piece(dms, p, pb - p, &ind2); if (verif_thrown) return 0;')],
+        description='splitting at internal signs and summing the pieces: hemisphere flag of the sum, incompatible flags, empty string (unicode substitution table dropped)'),
     Job('DMS.DecodeLatLon', 'DMS::DecodeLatLon', ['C10', 'C13', 'C14'], replace=[('DMS::Decode', dict(select=r'string', may_throw=True))],
         description='latitude/longitude pair: coordinate order, hemisphere letters'),
     Job('DMS.DecodeAngle', 'DMS::DecodeAngle', ['C10', 'C13', 'C14'], replace=[('DMS::Decode', dict(select=r'string', may_throw=True))], description='arc angle'),
@@ -200,6 +210,60 @@ JOBS = [
         # pixel_size_ is the compile-time constant 2 in this configuration (GEOGRAPHICLIB_GEOID_PGM_PIXEL_WIDTH): the 4-byte branch is dead code
         allow_unreachable=[r'block:if \(pixel_size_ == 4\)'],
         description='raster reader: longitude wrap, pole reflection, area-cache addressing (file offsets inside the raster)'),
+    Job('Geoid.CacheArea.30min', 'Geoid::CacheArea', ['C20', 'C13', 'C14'], timeout=1500, sat='cadical', cname='Geoid_CacheArea', contract_name='Geoid_CacheArea',
+        assume=('in_self._width == 720 && in_self._height == 361', 'BOUNDED stand-in: the raster size of a published geoid grid (30min); the proof for a symbolic size did not finish in 1500 s'),
+        replace=[('Math::AngNormalize', dict(ghost=False)), 'Math::LatFix', 'Geoid::filepos', 'Geoid::CacheClear'], extra_replace=['geoid_read_pixels'],
+        rewrites=[(r'int oysize = int\(_data\.size\(\)\);', 'int oysize = 0;'),
+                  (r'_data\.resize\(_ysize, vector<pixel_t>\(_xsize\)\);', ';'),
+                  (r'for \(int iy = min\(oysize, _ysize\); iy--;\)\s*_data\[iy\]\.resize\(_xsize\);', ';'),
+                  (r'Utility::readarray<pixel_t, pixel_t, true>\s*\(_file, &\(_data\[iy - in\]\[0\]\), xs1\);', 'geoid_read_pixels(self, iy - in, 0, xs1);'),
+                  (r'Utility::readarray<pixel_t, pixel_t, true>\s*\(_file, &\(_data\[iy - in\]\[xs1\]\), _xsize - xs1\);', 'geoid_read_pixels(self, iy - in, xs1, _xsize - xs1);')],
+        description='area cache: every cached pixel is the raster pixel rawval will look for there, rows complete, reads inside their raster row (all rows: loop contract)'),
+    Job('Geoid.CacheArea.15min', 'Geoid::CacheArea', ['C20', 'C13', 'C14'], timeout=1500, sat='cadical', cname='Geoid_CacheArea', contract_name='Geoid_CacheArea',
+        assume=('in_self._width == 1440 && in_self._height == 721', 'BOUNDED stand-in: the raster size of a published geoid grid (15min); the proof for a symbolic size did not finish in 1500 s'),
+        replace=[('Math::AngNormalize', dict(ghost=False)), 'Math::LatFix', 'Geoid::filepos', 'Geoid::CacheClear'], extra_replace=['geoid_read_pixels'],
+        rewrites=[(r'int oysize = int\(_data\.size\(\)\);', 'int oysize = 0;'),
+                  (r'_data\.resize\(_ysize, vector<pixel_t>\(_xsize\)\);', ';'),
+                  (r'for \(int iy = min\(oysize, _ysize\); iy--;\)\s*_data\[iy\]\.resize\(_xsize\);', ';'),
+                  (r'Utility::readarray<pixel_t, pixel_t, true>\s*\(_file, &\(_data\[iy - in\]\[0\]\), xs1\);', 'geoid_read_pixels(self, iy - in, 0, xs1);'),
+                  (r'Utility::readarray<pixel_t, pixel_t, true>\s*\(_file, &\(_data\[iy - in\]\[xs1\]\), _xsize - xs1\);', 'geoid_read_pixels(self, iy - in, xs1, _xsize - xs1);')],
+        description='area cache: every cached pixel is the raster pixel rawval will look for there, rows complete, reads inside their raster row (all rows: loop contract)'),
+    Job('Geoid.CacheArea.5min', 'Geoid::CacheArea', ['C20', 'C13', 'C14'], timeout=1500, sat='cadical', cname='Geoid_CacheArea', contract_name='Geoid_CacheArea',
+        assume=('in_self._width == 4320 && in_self._height == 2161', 'BOUNDED stand-in: the raster size of a published geoid grid (5min); the proof for a symbolic size did not finish in 1500 s'),
+        replace=[('Math::AngNormalize', dict(ghost=False)), 'Math::LatFix', 'Geoid::filepos', 'Geoid::CacheClear'], extra_replace=['geoid_read_pixels'],
+        rewrites=[(r'int oysize = int\(_data\.size\(\)\);', 'int oysize = 0;'),
+                  (r'_data\.resize\(_ysize, vector<pixel_t>\(_xsize\)\);', ';'),
+                  (r'for \(int iy = min\(oysize, _ysize\); iy--;\)\s*_data\[iy\]\.resize\(_xsize\);', ';'),
+                  (r'Utility::readarray<pixel_t, pixel_t, true>\s*\(_file, &\(_data\[iy - in\]\[0\]\), xs1\);', 'geoid_read_pixels(self, iy - in, 0, xs1);'),
+                  (r'Utility::readarray<pixel_t, pixel_t, true>\s*\(_file, &\(_data\[iy - in\]\[xs1\]\), _xsize - xs1\);', 'geoid_read_pixels(self, iy - in, xs1, _xsize - xs1);')],
+        description='area cache: every cached pixel is the raster pixel rawval will look for there, rows complete, reads inside their raster row (all rows: loop contract)'),
+    Job('Geoid.CacheArea.2p5min', 'Geoid::CacheArea', ['C20', 'C13', 'C14'], timeout=1500, sat='cadical', cname='Geoid_CacheArea', contract_name='Geoid_CacheArea',
+        assume=('in_self._width == 8640 && in_self._height == 4321', 'BOUNDED stand-in: the raster size of a published geoid grid (2p5min); the proof for a symbolic size did not finish in 1500 s'),
+        replace=[('Math::AngNormalize', dict(ghost=False)), 'Math::LatFix', 'Geoid::filepos', 'Geoid::CacheClear'], extra_replace=['geoid_read_pixels'],
+        rewrites=[(r'int oysize = int\(_data\.size\(\)\);', 'int oysize = 0;'),
+                  (r'_data\.resize\(_ysize, vector<pixel_t>\(_xsize\)\);', ';'),
+                  (r'for \(int iy = min\(oysize, _ysize\); iy--;\)\s*_data\[iy\]\.resize\(_xsize\);', ';'),
+                  (r'Utility::readarray<pixel_t, pixel_t, true>\s*\(_file, &\(_data\[iy - in\]\[0\]\), xs1\);', 'geoid_read_pixels(self, iy - in, 0, xs1);'),
+                  (r'Utility::readarray<pixel_t, pixel_t, true>\s*\(_file, &\(_data\[iy - in\]\[xs1\]\), _xsize - xs1\);', 'geoid_read_pixels(self, iy - in, xs1, _xsize - xs1);')],
+        description='area cache: every cached pixel is the raster pixel rawval will look for there, rows complete, reads inside their raster row (all rows: loop contract)'),
+    Job('Geoid.CacheArea.1min', 'Geoid::CacheArea', ['C20', 'C13', 'C14'], timeout=1500, sat='cadical', cname='Geoid_CacheArea', contract_name='Geoid_CacheArea',
+        assume=('in_self._width == 21600 && in_self._height == 10801', 'BOUNDED stand-in: the raster size of a published geoid grid (1min); the proof for a symbolic size did not finish in 1500 s'),
+        replace=[('Math::AngNormalize', dict(ghost=False)), 'Math::LatFix', 'Geoid::filepos', 'Geoid::CacheClear'], extra_replace=['geoid_read_pixels'],
+        rewrites=[(r'int oysize = int\(_data\.size\(\)\);', 'int oysize = 0;'),
+                  (r'_data\.resize\(_ysize, vector<pixel_t>\(_xsize\)\);', ';'),
+                  (r'for \(int iy = min\(oysize, _ysize\); iy--;\)\s*_data\[iy\]\.resize\(_xsize\);', ';'),
+                  (r'Utility::readarray<pixel_t, pixel_t, true>\s*\(_file, &\(_data\[iy - in\]\[0\]\), xs1\);', 'geoid_read_pixels(self, iy - in, 0, xs1);'),
+                  (r'Utility::readarray<pixel_t, pixel_t, true>\s*\(_file, &\(_data\[iy - in\]\[xs1\]\), _xsize - xs1\);', 'geoid_read_pixels(self, iy - in, xs1, _xsize - xs1);')],
+        description='area cache: every cached pixel is the raster pixel rawval will look for there, rows complete, reads inside their raster row (all rows: loop contract)'),
+    Job('Geoid.CacheArea.synthetic', 'Geoid::CacheArea', ['C20', 'C13', 'C14'], timeout=1500, sat='cadical', cname='Geoid_CacheArea', contract_name='Geoid_CacheArea',
+        assume=('in_self._width == 24 && in_self._height == 13', 'BOUNDED stand-in: the raster size of a published geoid grid (synthetic); the proof for a symbolic size did not finish in 1500 s'),
+        replace=[('Math::AngNormalize', dict(ghost=False)), 'Math::LatFix', 'Geoid::filepos', 'Geoid::CacheClear'], extra_replace=['geoid_read_pixels'],
+        rewrites=[(r'int oysize = int\(_data\.size\(\)\);', 'int oysize = 0;'),
+                  (r'_data\.resize\(_ysize, vector<pixel_t>\(_xsize\)\);', ';'),
+                  (r'for \(int iy = min\(oysize, _ysize\); iy--;\)\s*_data\[iy\]\.resize\(_xsize\);', ';'),
+                  (r'Utility::readarray<pixel_t, pixel_t, true>\s*\(_file, &\(_data\[iy - in\]\[0\]\), xs1\);', 'geoid_read_pixels(self, iy - in, 0, xs1);'),
+                  (r'Utility::readarray<pixel_t, pixel_t, true>\s*\(_file, &\(_data\[iy - in\]\[xs1\]\), _xsize - xs1\);', 'geoid_read_pixels(self, iy - in, xs1, _xsize - xs1);')],
+        description='area cache: every cached pixel is the raster pixel rawval will look for there, rows complete, reads inside their raster row (all rows: loop contract)'),
     Job('Geoid.height.history', 'Geoid::height', ['C20'], timeout=900, unwind=13, sat='cadical', harness='history', enforce=False,
         replace=[('Geoid::rawval', dict(may_throw=True)), ('Math::AngNormalize', dict(ghost=False)), 'Math::LatFix'],
         # the lemma is stated for bilinear interpolation (its harness assumes !_cubic): the twelve stencil reads of the cubic branch are outside it
@@ -217,6 +281,7 @@ JOBS = [
     Job('coeff.index.lemmas', None, ['C19'], lean='lemmas/CoeffIndex.lean', timeout=1800,
         description='Lean lemmas: the slot lies inside a vector of Csize(N, M) entries; the slot function is injective (over the integers; cbmc shows index == slot without overflow)'),
     Job('coeff.ctor', 'coeff::coeff', ['C19', 'C13'], arity=5, replace=['coeff::index', 'SphericalEngine::RootTable'], sat='cadical', timeout=600,
+        inline=['coeff::Csize', 'coeff::Ssize'],   # not called today; listed so that a constructor rewritten in terms of the size functions is still analysed
         rewrites=[(r'\b([CS])\.begin\(\)', r'\1->p'), (r'\b([CS])\.size\(\)', r'\1->n')],
         description='coefficient set constructor: index relations and vector sizes validated before anything is read'),
     Job('coeff.Sv', 'coeff::Sv', ['C19', 'C14'], arity=4, select=r'int n', description='sine coefficient with truncation to the used degree / order'),
@@ -265,6 +330,12 @@ JOBS = [
         rewrites=[(r'return GeodesicLine\(\*this, lat1, lon1, azi1, outmask\)\s*\.\s*GenPosition\(',
                    'struct GeodesicLine verif_line; GeodesicLine_GeodesicLine(VERIF_OBJ(verif_line), self, lat1, lon1, azi1, outmask); return GeodesicLine_GenPosition(VERIF_OBJ(verif_line), ')],
         description='direct problem through a temporary line: DISTANCE_IN supplied automatically, output-mask frame, ranges'),
+    Job('Geodesic.GenDirectLine', 'Geodesic::GenDirectLine', ['C12', 'C01', 'C14'], const_classes=['GeodesicLine'], inline=['Math::AngRound'],
+        replace=['Math::sincosd', ('Math::AngNormalize', dict(ghost=False)),
+                 ('GeodesicLine::GeodesicLine', dict(arity=9, select=r'bool arcmode', cname='GeodesicLine_GeodesicLine9'))],
+        rewrites=[(r'return GeodesicLine\(\*this, lat1, lon1, azi1, salp1, calp1,\s*caps, arcmode, s12_a12\);',
+                   'struct GeodesicLine verif_line; GeodesicLine_GeodesicLine(VERIF_OBJ(verif_line), self, lat1, lon1, azi1, salp1, calp1, caps, arcmode, s12_a12); return verif_line;')],
+        description='line with a third point (DirectLine / ArcDirectLine): DISTANCE_IN supplied automatically, third point stored, normalised azimuth'),
     Job('GeodesicLine.SetDistance', 'GeodesicLine::SetDistance', ['C12'], const_classes=['<Geodesic'], replace=[('GeodesicLine::GenPosition', dict(ghost=False))], inline=['Math::NaN'],
         description='third point by distance: NaN arc when the line lacks the capability'),
     Job('GeodesicLine.SetArc', 'GeodesicLine::SetArc', ['C12'], const_classes=['<Geodesic'], replace=[('GeodesicLine::GenPosition', dict(ghost=False))],
@@ -330,11 +401,15 @@ PROPS = {
         level='proof',
         level_text='Geoid::height for every position and every header satisfying the constructor checks: all raster indices passed to the reader are inside the '
                    'range its wrap-around / pole reflection handles, no float->int overflow, NaN in gives NaN out, a thread-safe geoid writes no member; and the '
-                   'history-independence lemma: two objects that differ only in their (consistent) cell cache return bit-identical heights.',
+                   'history-independence lemma: two objects that differ only in their (consistent) cell cache return bit-identical heights; the index logic of the raster reader '
+                   '(longitude wrap, pole reflection, area-cache addressing); and Geoid::CacheArea: for every requested area, every cached row (all rows: loop contract) is read from the '
+                   'raster pixels rawval will later look for in it, no read runs past its raster row, rows are complete, a thread-safe object refuses (this found defect F14).',
         level_note='Trusted: as C18; the raster reader rawval is an ASSUMED deterministic function of its indices (iostream / vector<vector<>> are outside the extraction); '
-                   'the class invariant (width even, height odd, resolutions) is assumed from the constructor. Interpolation identities, CacheArea/CacheAll contents, PGM header parsing are not decided.',
+                   'the class invariant (width even, height odd, resolutions) is assumed from the constructor. The binary reads and the vector storage of the area cache are a contract-only stand-in whose precondition is the specification. Interpolation identities, CacheAll, PGM header parsing are not decided.',
         design_ref='DESIGN.md section 5, C20',
-        not_decided=['bilinear / cubic interpolation identities (node values, linearity along edges, continuity)', 'area cache contents equal the file (CacheArea/CacheAll)',
+        bounded=['Geoid::CacheArea: one job per raster size (720x361, 1440x721, 4320x2161, 8640x4321, 21600x10801 = the published geoid grids, and 24x13): all areas, all rows, '
+                 'but not a symbolic raster size (that proof did not finish in 1500 s)'],
+        not_decided=['bilinear / cubic interpolation identities (node values, linearity along edges, continuity)', 'CacheAll; the bytes actually read (stream I/O)',
                      'PGM header parsing and format rejection (iostream)', 'ConvertHeight round trip'],
     ),
     'C08': dict(
@@ -406,7 +481,9 @@ PROPS = {
     'C10': dict(
         level='proof',
         level_text='Parser side: memory safety, index bounds and exception discipline of the DMS component parser and the angle/position decoders for '
-                   'all strings up to the stated capacity; alphabet lookup; hemisphere / coordinate-order logic of DecodeLatLon, DecodeAngle, DecodeAzimuth.',
+                   'all strings up to the stated capacity; the DMS.hpp grammar of one piece stated on the string (alphabet, one decimal point and only in the last component, order of the degree / minute / second marks, '
+                   'digits round each colon, at most three components, sign of the result); DMS::Decode after its symbol substitutions: pieces split immediately before internal signs, '
+                   'flag of the sum, incompatible designators rejected and nothing else; alphabet lookup; hemisphere / coordinate-order logic of DecodeLatLon, DecodeAngle, DecodeAzimuth.',
         level_note='Trusted: as C18; libstdc++ number parsing/printing is not modelled (fraction values are arbitrary). Formatters (DMS::Encode, Utility::str, '
                    '*Representation), the encode->decode round trip, the unicode substitution table of DMS::Decode and the command-line tools are not decided.',
         design_ref='DESIGN.md section 5, C10',
